@@ -216,6 +216,69 @@ def iface_contracts(pkg):
         o += ["//@   sites ).Write = %d" % len(dwr), "//"]
     return o
 
+
+def parse_type(t):
+    """IDL type -> ('map', K, V) | ('vector', T) | ('name', t)"""
+    t = t.strip()
+    def split_top(x):
+        d, out, cur = 0, [], ""
+        for ch in x:
+            if ch == '<': d += 1
+            if ch == '>': d -= 1
+            if ch == ',' and d == 0:
+                out.append(cur); cur = ""
+            else:
+                cur += ch
+        out.append(cur)
+        return [y.strip() for y in out]
+    m = re.match(r'^(map|vector)\s*<(.*)>$', t, re.S)
+    if not m:
+        return ("name", re.sub(r'\s+', ' ', t))
+    args = split_top(m.group(2))
+    if m.group(1) == "map" and len(args) == 2:
+        return ("map", parse_type(args[0]), parse_type(args[1]))
+    return ("vector", parse_type(args[0]))
+
+def readblock_sites(idl, mem, src):
+    """the ReadBlock calls of a generated ReadFrom in source order: (go type, is a map key/value temporary)"""
+    out = []
+    def walk(t, in_map):
+        if t[0] == "map":
+            walk(t[1], True); walk(t[2], True)
+        elif t[0] == "vector":
+            walk(t[1], False)
+        elif t[1] in idl:
+            out.append((t[1], in_map))
+    for tag, req, ity, name, dflt in sorted(mem):
+        walk(parse_type(ity), False)
+    return out
+
+def fresh_temporary_clauses(idl, mem, src):
+    """A struct-typed key or value of a map is decoded into a temporary; ReadBlock resets only the members with a
+    declared default, so the other optional members must be at their zero value when it is called: the temporary
+    is a fresh one for every entry (C03: an absent optional member decodes to its default, for every entry)."""
+    o = []
+    for k, (sty, in_map) in enumerate(readblock_sites(idl, mem, src)):
+        if not in_map:
+            continue
+        fields = go_fields(src, sty)
+        conds = []
+        for tag, req, ity, name, dflt in sorted(idl[sty]):
+            if req or dflt is not None or name not in fields:
+                continue
+            f = "$0." + fields[name][0]
+            if ity in SCALAR and ity != "string" and ity != "bool":
+                conds.append("%s == 0" % f)
+            elif ity == "string":
+                conds.append('%s == ""' % f)
+            elif ity == "bool":
+                conds.append("%s == false" % f)
+            elif ity.startswith("vector") or ity.startswith("map"):
+                conds.append("len(%s) == 0" % f)
+        if conds:
+            o.append("//@   site ).ReadBlock#%d assert [C03] %s" % (k, " && ".join(conds)))
+    return o
+
 def go_fields(src, ty):
     """{idl name: (Go field, tag, required)} from the struct tags of the generated struct"""
     m = re.search(r'^type %s struct \{\n(.*?)^\}' % ty, src, re.S | re.M)
@@ -230,9 +293,29 @@ def go_fields(src, ty):
 
 INTVEC = {"vector<short>": 2, "vector<int>": 4, "vector<long>": 8}
 
-def schema_contract(pkg, ty, mem, fields):
-    """WriteTo contract of a struct whose members are scalars, strings and vectors of signed integers:
-    bytes == schema encoding"""
+def struct_parts(pkg, sty, idl, src, path, reqs):
+    """encoding of the members of a nested struct value at `path` (all scalar), as one concatenation; None if the
+    struct has a member this derivation does not cover"""
+    fields = go_fields(src, sty)
+    parts, last = [], -1
+    for tag, req, ity, name, dflt in sorted(idl[sty]):
+        if ity not in SCALAR or name not in fields or fields[name][1] != tag or fields[name][2] != req or tag <= last:
+            return None
+        last = tag
+        f = path + "." + fields[name][0]
+        enc = "%s(%d, %s)" % (SCALAR[ity], tag, f)
+        if ity == "string":
+            reqs.append("len(%s) < 4294967296" % f)
+        if req or ity == "enum":
+            parts.append(enc)
+        else:
+            d = dflt if dflt is not None else ('""' if ity == "string" else ("false" if ity == "bool" else "0"))
+            parts.append("(%s != %s ? %s : [])" % (f, d, enc))
+    return parts
+
+def schema_contract(pkg, ty, mem, fields, idl=None, src=None):
+    """WriteTo contract of a struct whose members are scalars, strings, vectors of signed integers and structs of
+    scalars: bytes == schema encoding"""
     steps, reqs = [], ["st != nil", "validB(buf)"]
     full = True
     last = -1
@@ -250,6 +333,15 @@ def schema_contract(pkg, ty, mem, fields):
             reqs.append("len(%s) < 2147483648" % f)
             steps.append((None if req else "len(%s) > 0" % f, "encVecInts(%d, ints(%s), %d)" % (tag, f, w), 3, 4,
                           "head(LIST, %d) ++ encInt32(0, len(%s)) ++ encIntsW(ints(%s), rangeindex + 1, %d)" % (tag, f, f, w)))
+            continue
+        if idl is not None and ity in idl and src is not None:
+            # a member of struct type is written as a block under the member's tag, required or not: StructBegin head,
+            # the members of the nested value, StructEnd head (one WriteBlock call, one error check)
+            parts = struct_parts(pkg, ity, idl, src, f, reqs)
+            if parts is None:
+                full = False
+                break
+            steps.append((None, " ++ ".join(["head(StructBegin, %d)" % tag] + parts + ["head(StructEnd, 0)"]), 0, 1, None))
             continue
         if ity not in SCALAR:
             full = False
@@ -340,7 +432,7 @@ def gen(pkg):
     for ty, name, body in methods(src):
         if name == "WriteTo" and ty in idl and ty not in done:
             done.add(ty)
-            o += schema_contract(pkg, ty, idl[ty], go_fields(src, ty))
+            o += schema_contract(pkg, ty, idl[ty], go_fields(src, ty), idl, src)
         if name == "ResetDefault":
             dfl = []
             if ty in idl:
@@ -374,6 +466,8 @@ def gen(pkg):
                 # many loops, many returns: one exit obligation per return keeps each query small
                 o += ["//@   perreturn"]
             o += lc
+            if ty in idl:
+                o += fresh_temporary_clauses(idl, idl[ty], src)
             o += ["//@   safety [C05]", "//"]
         elif name == "ReadBlock":
             o += ["//@ func (*%s).ReadBlock" % ty,
